@@ -235,6 +235,11 @@ def eval (env : Env) : Expr → Except Err Val
     | .undef, _ => throw .undefined
     | .list xs, .int n => if n < 0 then throw (.unmodelled "negative index") else pure (xs.getD n.toNat .undef)
     | .dict kvs, .str s => pure (lookupKey kvs (String.ofList s))
+    -- `Environment.getitem`: TypeError / LookupError from `v[k]` with an int `k` gives Undefined
+    | .str s, .int n =>
+      if n < 0 then throw (.unmodelled "negative index")
+      else pure (match s[n.toNat]? with | some c => .str [c] | none => .undef)
+    | .none, .int _ | .int _, .int _ | .bool _, .int _ | .dict _, .int _ => pure .undef
     | _, _ => throw (.unmodelled "subscript")
   | .str s => .ok (.str s)
   | .int n => .ok (.int n)
